@@ -52,9 +52,12 @@ def main(tier, replay, t0):
                                   "building/setting bind groups", base))
             continue
         gave = {}
+        gave_range = {}
         for e in evs:
             if e["op"] == "gave":
                 gave[(str(e["group"]), e["field"])] = e
+            elif e["op"] == "gave.range":
+                gave_range[(str(e["group"]), e["field"])] = e
         layouts = {}
         for b, inside in probes.bracketed(evs, "layout.begin", "layout.end"):
             for e in inside:
@@ -109,6 +112,14 @@ def main(tier, replay, t0):
                     viol.append(Violation("wrong-resource-kind", info["kind"],
                                           "binding %d carries a %s, variable is a %s" % (
                                               bnum, en["kind"], info["kind"]), rp))
+                elif info["kind"] == "buffer" and (g, info["name"]) in gave_range:
+                    gr = gave_range[(g, info["name"])]
+                    if en.get("offset") != gr["offset"] or en.get("size") != gr["size"]:
+                        viol.append(Violation("buffer-range-altered", "offset/size",
+                                              "field %s was given offset %s size %s; the bind "
+                                              "group entry has offset %s size %s" % (
+                                                  info["name"], gr["offset"], gr["size"],
+                                                  en.get("offset"), en.get("size")), rp))
             lay = cbl.get(bg["layout_id"])
             if lay is None:
                 viol.append(Violation("layout-not-own", "group", "bind group %s was created with "
@@ -143,8 +154,21 @@ def main(tier, replay, t0):
                 viol.append(Violation("set-index-mismatch", b["route"] + "/" + b["pass_kind"],
                                       "route %s on a %s pass bound %s, expected %s" % (
                                           b["route"], b["pass_kind"], got, want), rp))
-            elif any(e["offsets"] for e in sets):
-                viol.append(Violation("dynamic-offsets", b["route"], "non-empty offsets", rp))
+            else:
+                for e in sets:
+                    lay = layouts.get(str(e["index"]))
+                    ndyn = 0
+                    if lay:
+                        for le in lay["entries"]:
+                            bt = le["ty"].get("Buffer") if isinstance(le["ty"], dict) else None
+                            if bt and bt.get("has_dynamic_offset"):
+                                ndyn += 1
+                    if len(e["offsets"]) != ndyn:
+                        viol.append(Violation("dynamic-offset-count", b["route"],
+                                              "group %s is set with %d dynamic offsets, its "
+                                              "layout declares %d dynamic buffers" % (
+                                                  e["index"], len(e["offsets"]), ndyn), rp))
+                        break
         for b, inside in probes.bracketed(evs, "pl.begin", "pl.end"):
             evals += 1
             pl = [e for e in inside if e["op"] == "dev.create_pipeline_layout"]
